@@ -674,7 +674,8 @@ class BulkIndex(Runner):
         """
         error_descriptions = []
         is_truncated = False
-        for count, error_detail in enumerate(sorted(error_details)):
+        # an error detail is a tuple (status, reason) and the reason may be missing: order them without comparing None with a string
+        for count, error_detail in enumerate(sorted(error_details, key=lambda detail: (detail[0], detail[1] or ""))):
             status, reason = error_detail
             if count < 5:
                 if reason:
